@@ -8,6 +8,8 @@
 import SV.Proofs.Registry
 import SV.Gen.Files
 import SV.Gen.BankFacts
+import SV.Gen.Countries
+import SV.Proofs.Decode
 namespace SV.Props.C18
 open SV
 
@@ -127,6 +129,77 @@ theorem bank_list_is_concatenation_count :
 theorem v2_files : (Gen.bankFiles.filter (fun f => isV2 f.1)).map (·.1) =
     [[109, 97, 110, 117, 97, 108, 95, 100, 107, 46, 118, 50, 46, 106, 115, 111, 110]] := by
   decide +kernel
+
+/-! ### "Validation, generation and lookup follow the effective data"
+
+  Every IBAN / BBAN theorem of this development is about a typed table (`SV.Table`); the registry
+  theorems above are about JSON documents.  The two are tied here: the typed table the other
+  properties' obligations are checked on (`Gen.table`) is, entry by entry and key by key as the code
+  reads them, the effective document — which `effective_eq_merge_of_files` shows to be the
+  composition of the files on disk. -/
+
+/-- What `_get_position_range(spec, k)` reads from a country's document. -/
+def docRange (kv : List (Str × J)) (k : Component) : Range :=
+  match lookupJ strPositions kv with
+  | some (.obj ps) => ((lookupJ k.jsonName ps).bind J.asRange?).getD ⟨0, 0⟩
+  | _ => ⟨0, 0⟩
+
+/-- A typed entry that matches its document has the document's lengths, structure string and
+    position ranges (for every component; `[0, 0]` where the document names none). -/
+theorem typed_entry_reads_document (e : Country) (kv : List (Str × J))
+    (h : countryMatches e (.obj kv) = true) :
+    (lookupJ strBbanSpec kv).bind J.asStr? = some e.bbanSpec ∧
+    (lookupJ strBbanLength kv).bind J.asNat? = some e.bbanLength ∧
+    (lookupJ strIbanLength kv).bind J.asNat? = some e.ibanLength ∧
+    ∀ k, e.range k = docRange kv k := by
+  simp only [countryMatches, Bool.and_eq_true, beq_iff_eq] at h
+  obtain ⟨⟨⟨⟨⟨h1, h2⟩, h3⟩, h4⟩, _⟩, _⟩ := h
+  refine ⟨h1, h2, h3, ?_⟩
+  intro k
+  unfold Country.range docRange
+  unfold positionsMatch at h4
+  cases hp : e.positions with
+  | none =>
+    rw [hp] at h4
+    cases hd : lookupJ strPositions kv with
+    | none => rfl
+    | some d => rw [hd] at h4; cases h4
+  | some ps =>
+    rw [hp] at h4
+    cases hd : lookupJ strPositions kv with
+    | none => rw [hd] at h4; cases h4
+    | some d =>
+      rw [hd] at h4
+      cases d with
+      | obj pkv =>
+        simp only [Bool.and_eq_true, List.all_eq_true, beq_iff_eq] at h4
+        have hk := h4.1 k (by cases k <;> simp [Component.all])
+        simp only
+        rw [← hk]
+        cases lookupJ k.jsonName pkv with
+        | none => rfl
+        | some v => simp only [Option.bind_some]; cases v.asRange? <;> rfl
+      | _ => cases h4
+
+/-- A typed table that matches a document has, for every key it answers, the document's entry of
+    that key, and that entry matches. -/
+theorem typed_lookup_reads_document (T : Table) (kv : List (Str × J))
+    (h : tableMatches T (.obj kv) = true) {cc : Str} {e : Country} (hl : T.lookup cc = some e) :
+    ∃ c, lookupJ cc kv = some c ∧ countryMatches e c = true := by
+  simp only [tableMatches, Bool.and_eq_true, List.all_eq_true] at h
+  have hmem : e ∈ T := List.mem_of_find?_eq_some hl
+  have hcode : e.code = cc := by
+    have := List.find?_some hl
+    simpa using this
+  have := h.2 e hmem
+  rw [hcode] at this
+  cases hc : lookupJ cc kv with
+  | none => rw [hc] at this; cases this
+  | some c => rw [hc] at this; exact ⟨c, rfl, this⟩
+
+/-- Instance obligation: the regenerated typed table IS the regenerated effective document. -/
+theorem live_typed_table_is_effective_document :
+    tableMatches Gen.table Gen.effectiveIban = true := by decide +kernel
 
 /-! Non-vacuity -/
 example : untouched (.obj [([97], .obj [([98], .num 1)])]) [[97], [99]] = true := by decide
